@@ -23,6 +23,12 @@ mkdir -p "$out"
 for p in $pid $others; do
   (cd /verif && BIOM_REPO="$wt" VERIF_OUT="$out" ./check "$p" --tier quick >"$out/log.$p" 2>&1); rc=$?
   grep -E "VIOLATION|KNOWN-FINDING|quick:" "$out/log.$p" | cut -c1-300
+  if [ "$rc" != 0 ] && [ -z "$NO_CONTROL" ]; then
+    # control: the same check, same harness as it sits on disk right now, on the UNCHANGED tree; a catch counts
+    # only if that run is green (a harness that is red for another reason must not read as a catch)
+    (cd /verif && BIOM_REPO=/repo VERIF_OUT="$out/control" ./check "$p" --tier quick >"$out/control.$p" 2>&1); crc=$?
+    if [ "$crc" != 0 ]; then echo "SEED control $p: RED on the unchanged tree (exit $crc) - not counted"; rc="0 (control red)"; fi
+  fi
   echo "SEED check $p: exit $rc"
 done
 if [ -n "$KEEP_REPLAY" ]; then mkdir -p "$KEEP_REPLAY"; cp "$out"/replays/* "$KEEP_REPLAY"/ 2>/dev/null; fi
